@@ -14,6 +14,9 @@
 (*     desc       an invariant of class pa + 1, i.e. a descendant tightening an inherited x     *)
 (*     cprim      an invariant of the constrained primitive Cp  ( len(self) op c, matches_p(self))*)
 (*     cprim_anc  an invariant of Cp0, the parent of Cp                                         *)
+(*     cprim_anc2 an invariant of Cp00, the parent of Cp0 (chain Cp00 <- Cp0 <- Cp); the three   *)
+(*                primitives may be DECLARED in any order (shape field cpo: 0 parents first,    *)
+(*                1 Cp between its ancestors, 2 children first) - the meta-model is only parsed  *)
 (* and at a TARGET: "val" (the value of x itself: its length / its text / its number of items)  *)
 (* or "item" (every item of the list x; only constrained primitives constrain items).           *)
 (*                                                                                              *)
@@ -28,13 +31,14 @@
 (*   ScenarioFeatures          structural fingerprints (keys of findings).                      *)
 EXTENDS XsdRegex
 
-Sources  == {"own", "desc", "cprim", "cprim_anc"}
+Sources  == {"own", "desc", "cprim", "cprim_anc", "cprim_anc2"}
 \* C14: "... inferred for the property's own class, or for a constrained primitive it uses";
 \* "Tightenings that descendants apply to inherited properties are excluded by design."
-Enforced == {"own", "cprim", "cprim_anc"}
+Enforced == {"own", "cprim", "cprim_anc", "cprim_anc2"}
 
-Kinds       == {"str", "bytes", "int", "cprim_str", "cprim_bytes", "list_str", "list_cls", "list_acls", "list_cprim"}
-ListKinds   == {"list_str", "list_cls", "list_acls", "list_cprim"}
+Kinds       == {"str", "bytes", "int", "cprim_str", "cprim_bytes", "list_str", "list_cls", "list_acls", "list_ccls", "list_cprim"}
+\* list_ccls: a list of a CONCRETE class that has a concrete descendant; the items alternate between the two classes
+ListKinds   == {"list_str", "list_cls", "list_acls", "list_ccls", "list_cprim"}
 CprimKinds  == {"cprim_str", "cprim_bytes", "list_cprim"}
 StringKinds == {"str", "cprim_str", "list_cprim"}     \* kinds with a string somewhere (pattern-able)
 Ops         == {"<", "<=", "==", ">", ">=", "!="}
@@ -96,8 +100,8 @@ SatisfiableOn(sc, tgt, n) ==
 SrcOk(sc, k) ==
     /\ k.src \in Sources
     /\ (k.src = "desc" => sc.pa < sc.L)
-    /\ (k.src \in {"cprim", "cprim_anc"} => sc.kind \in CprimKinds)
-    /\ (k.tgt = "item" <=> (sc.kind = "list_cprim" /\ k.src \in {"cprim", "cprim_anc"}))
+    /\ (k.src \in {"cprim", "cprim_anc", "cprim_anc2"} => sc.kind \in CprimKinds)
+    /\ (k.tgt = "item" <=> (sc.kind = "list_cprim" /\ k.src \in {"cprim", "cprim_anc", "cprim_anc2"}))
 WellFormed(sc) ==
     /\ sc.kind \in Kinds /\ sc.L \in 1..3 /\ sc.pa \in 1..sc.L /\ sc.opt \in BOOLEAN
     /\ \A q \in 1..Len(sc.atoms) : SrcOk(sc, sc.atoms[q]) /\ sc.atoms[q].op \in Ops /\ sc.kind # "int"
@@ -154,6 +158,6 @@ ScenarioFeatures(sc) ==
     \cup (IF Multi(sc) /\ \E t \in AllTrees(sc) : HasUnboundedDot(t) THEN {"multi_dotrep"} ELSE {})
     \cup (IF Multi(sc) /\ \E t \in AllTrees(sc) : HasNegSet(t) THEN {"multi_negset"} ELSE {})
     \cup (IF Multi(sc) /\ \E t \in AllTrees(sc) : \E p \in Lits(t) : p[2] = "esc" THEN {"multi_esc"} ELSE {})
-FeatureOrder == <<"enc_meta", "enc_set_meta", "uni_esc", "esc_dollar", "multi", "multi_dotrep", "multi_negset", "multi_esc">>
+FeatureOrder == <<"enc_meta", "enc_set_meta", "uni_esc", "esc_dollar", "lit_bs", "multi", "multi_dotrep", "multi_negset", "multi_esc">>
 FeatureSeq(sc) == SelectSeq(FeatureOrder, LAMBDA f : f \in ScenarioFeatures(sc))
 =============================================================================
